@@ -12,3 +12,4 @@ import J1939.Props.C05
 #print axioms J1939.Props.C05.c05_22_foreign_noop
 #print axioms J1939.Props.C05.c05_22_bystander
 #print axioms J1939.Props.C05.c05_22_pdu2_is_broadcast
+#print axioms J1939.Props.C05.c05_22_tp_delivery_keeps_destination
